@@ -73,7 +73,7 @@ func vpMakeEntries(nk, maxVer int) []vpEnt {
 	// most 4 entries), so that deep version chains and several keys fit into one tier
 	maxTotal := vpParam("ents.total", 0)
 	for k := 0; k < nk; k++ {
-		kl := 1 + vpChoose("keylen", 2)
+		kl := 1 + vpChoose("keylen", vpParam("ents.klen", 2))
 		uk := vpBytes("ukey", kl)
 		if prev != nil {
 			vpAssume(bytes.Compare(prev, uk) < 0)
